@@ -66,6 +66,7 @@ type Prog struct {
 
 	fnByName map[string]*ssa.Function
 	litIndex map[*ssa.Function]string
+	modTypes []*types.Named
 }
 
 // Load loads the restic packages from cfg.RepoDir. Any load or type error is returned:
